@@ -116,6 +116,9 @@ pub fn measure(input: &[u8]) -> Meas {
 pub struct Family {
     pub name: String,
     pub prefix: Vec<u8>,
+    /// a first phase: `lead` repeated n times between the prefix and the repeated units
+    /// (one large thing, then many small things after it); empty = no first phase
+    pub lead: Vec<u8>,
     pub open: Vec<u8>,
     pub depth: usize,
     pub inner: Vec<u8>,
@@ -126,11 +129,21 @@ pub struct Family {
 
 impl Family {
     pub fn unit_len(&self) -> usize {
-        (self.open.len() + self.close.len()) * self.depth + self.inner.len()
+        (self.open.len() + self.close.len()) * self.depth + self.inner.len() + self.lead.len()
     }
     pub fn input(&self, n: usize) -> Vec<u8> {
         let mut b = T_HEADER.to_vec();
         b.extend_from_slice(&self.prefix);
+        if !self.lead.is_empty() {
+            let lph = self.lead.windows(6).position(|w| w == b"######");
+            for i in 0..n {
+                let at = b.len();
+                b.extend_from_slice(&self.lead);
+                if let Some(p) = lph {
+                    b[at + p..at + p + 6].copy_from_slice(format!("{:06}", i % 1_000_000).as_bytes());
+                }
+            }
+        }
         let ph = self.inner.windows(6).position(|w| w == b"######");
         for i in 0..n {
             for _ in 0..self.depth {
@@ -153,11 +166,11 @@ impl Family {
         b
     }
     pub fn to_json(&self) -> Value {
-        json!({"name": self.name, "prefix": hex(&self.prefix), "open": hex(&self.open), "depth": self.depth, "inner": hex(&self.inner), "close": hex(&self.close), "suffix": hex(&self.suffix), "cut": self.cut})
+        json!({"name": self.name, "prefix": hex(&self.prefix), "lead": hex(&self.lead), "open": hex(&self.open), "depth": self.depth, "inner": hex(&self.inner), "close": hex(&self.close), "suffix": hex(&self.suffix), "cut": self.cut})
     }
     pub fn from_json(v: &Value) -> Option<Family> {
         let h = |k: &str| unhex(v.get(k)?.as_str()?);
-        Some(Family { name: v.get("name")?.as_str()?.to_string(), prefix: h("prefix")?, open: h("open")?, depth: v.get("depth")?.as_u64()? as usize, inner: h("inner")?, close: h("close")?, suffix: h("suffix")?, cut: v.get("cut")?.as_bool()? })
+        Some(Family { name: v.get("name")?.as_str()?.to_string(), prefix: h("prefix")?, lead: h("lead").unwrap_or_default(), open: h("open")?, depth: v.get("depth")?.as_u64()? as usize, inner: h("inner")?, close: h("close")?, suffix: h("suffix")?, cut: v.get("cut")?.as_bool()? })
     }
 }
 
@@ -168,7 +181,7 @@ const BEG_M: &[u8] = &[0x34, 0, 0, 0, 0, 0x4a, 0, 0, 0, 1, b'm'];
 const END: &[u8] = &[0x37, 0, 0, 0, 0];
 
 fn fam(name: &str, prefix: &[u8], open: &[u8], depth: usize, inner: &[u8], close: &[u8], suffix: &[u8], cut: bool) -> Family {
-    Family { name: name.into(), prefix: prefix.to_vec(), open: open.to_vec(), depth, inner: inner.to_vec(), close: close.to_vec(), suffix: suffix.to_vec(), cut }
+    Family { name: name.into(), prefix: prefix.to_vec(), lead: vec![], open: open.to_vec(), depth, inner: inner.to_vec(), close: close.to_vec(), suffix: suffix.to_vec(), cut }
 }
 
 pub fn fixed_families() -> Vec<Family> {
@@ -202,6 +215,18 @@ pub fn fixed_families() -> Vec<Family> {
         fam("raw-octet additional values (unassigned tag 0x2f), 65535 octets", NAMED_Z, &[], 0, &[&[0x2fu8, 0, 0, 0xff, 0xff][..], &vec![0xc3u8; 65535][..]].concat(), &[], &[], false),
         fam("long names", &[0x01], &[], 0, &[&[0x21u8, 0x01, 0x06][..], b"######", &vec![b'n'; 256][..], &[0, 4, 0, 0, 0, 1]].concat(), &[], &[], false),
     ];
+    // two-phase families: n large-ish things first, then n small things after them (state left by the
+    // first phase - a size hint, a high-water mark, a grown buffer - must not be paid for by every later unit)
+    let lead = |name: &str, prefix: &[u8], lead: &[u8], inner: &[u8], suffix: &[u8]| Family { lead: lead.to_vec(), ..fam(name, prefix, &[], 0, inner, &[], suffix, false) };
+    v.extend([
+        lead("one wide group, then many empty groups", &[0x01], &named_attr, &[0x04], &[]),
+        lead("one wide group, then many empty groups of alternating kinds", &[0x01], &named_attr, &[0x02, 0x05], &[]),
+        lead("one wide group, then many groups with one attribute each", &[0x01], &named_attr, &[&[0x04u8][..], &same_attr].concat(), &[]),
+        lead("one wide set, then many attributes", NAMED_Z, ADD_INT, &named_attr, &[]),
+        lead("one wide set, then many empty groups", NAMED_Z, ADD_INT, &[0x02], &[]),
+        lead("one wide collection, then many empty collections after it", &named_coll, &member, &[END, BEG].concat(), END),
+        lead("many attributes, then one wide set at the end", &[0x01], &named_attr, ADD_INT, &[]),
+    ]);
     // malformed / truncated variants
     let cut: Vec<Family> = v.iter().filter(|f| !f.name.contains("65535")).map(|f| Family { name: format!("{} [cut at 60%]", f.name), cut: true, ..f.clone() }).collect();
     v.extend(cut);
@@ -251,11 +276,12 @@ fn piece() -> BoxedStrategy<Vec<u8>> {
 
 pub fn generated_family() -> BoxedStrategy<Family> {
     let open = prop_oneof![3 => Just(BEG_M.to_vec()), 1 => Just(BEG.to_vec()), 1 => Just([BEG_M, ADD_INT].concat())];
-    (prop_oneof![3 => Just(0usize), 2 => 1usize..=8, 2 => 9usize..=120], open, proptest::collection::vec(piece(), 1..5), any::<bool>(), prop_oneof![4 => Just(false), 1 => Just(true)], any::<bool>())
-        .prop_map(|(depth, open, pieces, in_coll, cut, closed)| {
+    (prop_oneof![3 => Just(0usize), 2 => 1usize..=8, 2 => 9usize..=120], open, proptest::collection::vec(piece(), 1..5), any::<bool>(), prop_oneof![4 => Just(false), 1 => Just(true)], any::<bool>(), prop_oneof![3 => Just(vec![]), 2 => proptest::collection::vec(piece(), 1..3)])
+        .prop_map(|(depth, open, pieces, in_coll, cut, closed, lead)| {
             let inner = pieces.concat();
+            let lead = lead.concat();
             let (prefix, suffix) = if in_coll { ([0x01u8, 0x34, 0, 1, b'c', 0, 0].to_vec(), END.to_vec()) } else { (NAMED_Z.to_vec(), vec![]) };
-            Family { name: "generated".into(), prefix, open: if depth == 0 { vec![] } else { open }, depth, inner, close: if depth == 0 || !closed { vec![] } else { END.to_vec() }, suffix, cut }
+            Family { name: "generated".into(), prefix, lead, open: if depth == 0 { vec![] } else { open }, depth, inner, close: if depth == 0 || !closed { vec![] } else { END.to_vec() }, suffix, cut }
         })
         .boxed()
 }
